@@ -440,6 +440,58 @@ func c08Run(r *mon.Run) {
 			c08ProjectP(r, vs, nil, p, false, true)
 		}
 	}
+	// objects described by several key shortcuts: every ordered pair (and some triples) of value shapes, alone,
+	// next to a plain member, and under an additionalProperties rule
+	{
+		shapes := []func() *gen.Node{
+			func() *gen.Node { return gen.Int("5").R("min", "0") },
+			func() *gen.Node { return gen.Int("-5").R("max", "0") },
+			func() *gen.Node { return gen.Int("7") },
+			func() *gen.Node { return gen.Str("ab").R("maxLength", "2") },
+			func() *gen.Node { return gen.Str("abcdef").R("minLength", "4") },
+			func() *gen.Node { return gen.Str("A1").R("regex", gen.Q("^[A-Z][0-9]$")) },
+			func() *gen.Node { return gen.Float("1.5").R("precision", "1") },
+			func() *gen.Node { return gen.Float("-20.25").R("max", "0") },
+			func() *gen.Node { return gen.Bool(true) },
+			func() *gen.Node { return gen.Null() },
+			func() *gen.Node { return gen.Obj(gen.Int("1").K("in")) },
+			func() *gen.Node { return gen.Arr(gen.Str("x")) },
+			func() *gen.Node { return gen.Str("b").R("enum", `["a", "b"]`) },
+			func() *gen.Node { return gen.Int("2").R("enum", `[1, 2]`) },
+		}
+		keyTypes := func() []gen.NamedNode {
+			return []gen.NamedNode{{Name: "@k0", Node: gen.Str("abc")}, {Name: "@k1", Node: gen.Str("12").R("regex", gen.Q("^[0-9]+$"))}, {Name: "@k2", Node: gen.Str("x-1").R("minLength", "2")}}
+		}
+		si := 0
+		grng := r.Rand("c08-grid")
+		for a := range shapes {
+			for b := range shapes {
+				for variant := 0; variant < 4; variant++ {
+					if !r.Mine(si) {
+						si++
+						continue
+					}
+					si++
+					members := []*gen.Node{shapes[a]().KRefKey("@k0"), shapes[b]().KRefKey("@k1")}
+					switch variant {
+					case 1:
+						members = append([]*gen.Node{gen.Int("1").K("id")}, members...)
+					case 2:
+						members = append(members, shapes[(a+b)%len(shapes)]().KRefKey("@k2"))
+					}
+					root := gen.Obj(members...)
+					if variant == 3 {
+						root.R("additionalProperties", `"boolean"`)
+					}
+					p := &gen.Project{Root: root, Types: keyTypes()}
+					if c08Project(r, vs, grng, p, false) {
+						r.Nontrivial(projectKey(toTexts(p, gen.DefaultLayout)))
+					}
+					r.Count("key_shortcut_grid_projects", 1)
+				}
+			}
+		}
+	}
 	rng := r.Rand("c08")
 	n := r.Share(r.Pick(24_000, 600_000))
 	for i := 0; i < n; i++ {
